@@ -577,6 +577,7 @@ func extractC01(c *ctxT) {
 	w("MsgServer.Claim takes the voter from the wrapped claim (claim.GetClaimer())", "claimVoterIsInnerBridger", "Bool", leanBool(voterSrc == "inner"))
 	w("MsgServer.Claim takes the voter from the wrapper (msg.BridgerAddress)", "claimVoterIsWrapperBridger", "Bool", leanBool(voterSrc == "wrapper"))
 	w("MsgClaim.ValidateBasic rejects when wrapper bridger_address != wrapped claim's bridger", "claimValidateBasicBindsSigner", "Bool", leanBool(binds))
+	sb.WriteString(c.c01Genesis(facts))
 	sb.WriteString("end FxVerif.Gen.C01\n")
 	c.write("C01.lean", sb.String())
 
